@@ -2443,7 +2443,15 @@ class DefaultExecutionContext(ExecutionContext):
             default_arg = expression.type_coerce(default.arg, type_)
         else:
             default_arg = default.arg
-        compiled = expression.select(default_arg).compile(dialect=self.dialect)
+        # compile with the schema_translate_map in effect so that tables
+        # referenced by the default render their schema tokens; these are
+        # resolved by _execute_scalar() like those of the parent statement
+        compiled = expression.select(default_arg).compile(
+            dialect=self.dialect,
+            schema_translate_map=self.execution_options.get(
+                "schema_translate_map", None
+            ),
+        )
         compiled_params = compiled.construct_params()
         processors = compiled._bind_processors
         if compiled.positional:
